@@ -213,9 +213,17 @@ def _inject(h: LifeHarness, w: LifeWorld, cause: str) -> bool:
 
 
 def run_injected(scn: str, inj: tuple[tuple[int, str], ...]) -> dict[str, Any]:
-    noise, labels = SCENARIOS[scn]
+    # "<scenario>@debug": the same run with debug logging switched on (logger at DEBUG level, every record formatted)
+    from .. import world as _world
+
+    debug = scn.endswith("@debug")
+    noise, labels = SCENARIOS[scn.removesuffix("@debug")]
     h = factory(noise, "init")
-    w = h.fresh()
+    _world.DEFAULT_DEBUG[0] = debug
+    try:
+        w = h.fresh()
+    finally:
+        _world.DEFAULT_DEBUG[0] = False
     counter = {"n": 0, "applied": 0}
     todo = dict(inj)
 
@@ -266,7 +274,7 @@ def _job(args: tuple[str, tuple[tuple[int, str], ...]]) -> tuple[Any, dict[str, 
 def crash_point_sweep(res: Result, tier: str) -> dict[str, Any]:
     jobs: list[tuple[str, tuple[tuple[int, str], ...]]] = []
     base = {}
-    for scn in SCENARIOS:
+    for scn in list(SCENARIOS) + ["plain-login-disconnect@debug", "noise-login-disconnect@debug"]:
         b = run_injected(scn, ())
         if b["viol"]:
             res.add(f"sweep:{scn}:baseline:{b['viol'][0][:60]}", b["viol"][0], {"scenario": scn, "inject": [], "log": b["log"]})
@@ -278,7 +286,7 @@ def crash_point_sweep(res: Result, tier: str) -> dict[str, Any]:
         # pairs: second cause within the next 3 (quick) / at every later (thorough) callback
         span = 3 if tier == "quick" else 12
         pair_causes = ("force", "disc", "cancel", "eof", "c:DR", "c:BAD", "wf:sync", "wf:async", "c:DR+ST", "reent", "c:ST+ST")
-        if tier == "quick" and scn not in ("plain-login-disconnect", "noise-login-disconnect", "plain-onechunk-peerclose"):
+        if scn.endswith("@debug") or (tier == "quick" and scn not in ("plain-login-disconnect", "noise-login-disconnect", "plain-onechunk-peerclose")):
             continue
         for k in range(b["callbacks"] + 1):
             for c1 in pair_causes:
@@ -457,7 +465,7 @@ def run(tier: str, seed: int) -> Result:
         "configs": per_cfg,
         "exhaustive": not total.time_capped,
         "caps_hit": ["wall-clock budget"] if total.time_capped else [],
-        "samples": [{"scenario": s, "labels": SCENARIOS[s][1], "callbacks": n} for s, n in sweep["scenario_callbacks"].items()][:3] + total.samples[:1],
+        "samples": [{"scenario": s, "labels": SCENARIOS[s.removesuffix("@debug")][1], "callbacks": n} for s, n in sweep["scenario_callbacks"].items()][:3] + total.samples[:1],
     }
     res.assumptions = [
         "every timer, task and socket of the world belongs to the connection under test, so 'none left' is the audit",
